@@ -1,6 +1,7 @@
 import MosnVerif.Drive.Util
 import MosnVerif.Model.UpgTiming
 import MosnVerif.Model.HandoverQueue
+import MosnVerif.Model.UpgHandshake
 /-! driver of the C11 round-5 kinds: `st` (start path -> TransferTimeout), `hw` (writes during a hand-over), `rh`
 (ReconfigureHandler against a scripted new MOSN).  Core Lean only. -/
 namespace MosnVerif.Drive.C11U
@@ -49,5 +50,25 @@ def hw (c impl : List String) : String :=
       && g "lost" == "-" && g "wfin" == "1"
     verdict (joinWith " " impl == out) spec out
   | none => "E E bad-case"
+
+/-- `rh drain= hold= dl= => ret= ack= ackacc= probe= stopped= exit=`.  The model runs the regenerated step list with the
+ready byte at instant 0 and the case's (scaled) ack deadline in place of the regenerated one.  Reference (literal): the
+ack arrives in time while the old listener still accepts, nobody finds the listener unserved, the handler succeeds. -/
+def rh (c impl : List String) : String :=
+  match kvNat c "drain", kvNat c "hold", kvNat c "dl" with
+  | some drain, some hold, some dl =>
+    let sd := Model.UpgHandshake.shutdownDur drain (if hold == 0 then [] else [hold])
+    let o := Model.UpgHandshake.runOld Gen.UpgHandshake.oldSteps 0 sd 300
+    let inTime := match o.ackAt with | some a => decide (a ≤ dl) | none => false
+    let ackacc := match o.ackAt, o.stopAt with
+      | some a, some s => if a < s then "1" else "0"
+      | some _, none => "1"
+      | none, _ => "na"
+    let out := if inTime then s!"ret=ok ack=intime ackacc={ackacc} probe=na stopped=1 exit=0"
+      else s!"ret=fail ack=late ackacc=na probe={if Model.UpgHandshake.oldAccepts o dl then "served" else "unserved"} stopped=1 exit=0"
+    let g (k : String) := (kv impl k).getD "?"
+    let spec := g "ret" == "ok" && g "ack" == "intime" && g "ackacc" == "1" && g "probe" != "unserved" && g "exit" == "0"
+    verdict (joinWith " " impl == out) spec out
+  | _, _, _ => "E E bad-case"
 
 end MosnVerif.Drive.C11U
